@@ -55,7 +55,7 @@ impl Fx {
         let mut fx = Fx {
             port,
             auth,
-            ctx: ReqCtx { contract: String::new(), contract_insc: "c12contracti0".into(), tx_hash: String::new(), block_hash: h1.clone(), pkscript: PKSCRIPTS[0].into(), height: 0, open_hash: String::new(), open_ts: 0, open_count: 0, seq: 0 },
+            ctx: ReqCtx { contract: String::new(), contract_insc: "c12contracti0".into(), tx_hash: String::new(), block_hash: h1.clone(), pkscript: PKSCRIPTS[0].into(), height: 0, open_hash: String::new(), open_ts: 0, open_count: 0, seq: 0, signer_nonce: 0 },
         };
         fx.admin("brc20_initialise", json!({"genesis_hash": b256_hex(keccak256(b"rpcgen-genesis")), "genesis_timestamp": 1, "genesis_height": 0}));
         let r = fx.admin("brc20_deploy", json!({"from_pkscript": PKSCRIPTS[0], "data": RUNTIME_STORE, "timestamp": 2, "hash": h1, "tx_idx": 0, "inscription_id": "c12contracti0", "inscription_byte_len": 2500, "op_return_tx_id": h1}));
@@ -93,7 +93,7 @@ impl Fx {
             ("eth_getStorageAt", json!([self.ctx.contract, "0x0"])),
             ("eth_getTransactionCount", json!([addr_hex(pk_addr(0)), "latest"])),
             ("eth_getTransactionCount", json!([addr_hex(indexer_addr()), "latest"])),
-            ("eth_getTransactionCount", json!([addr_hex(signer_addr(3)), "latest"])),
+            ("eth_getTransactionCount", json!([addr_hex(signer_addr(0)), "latest"])),
             ("eth_getCode", json!([self.ctx.contract])),
             ("eth_getBlockByNumber", json!(["latest", false])),
         ];
